@@ -92,8 +92,11 @@ class SNRAnalyzer(BaseAnalyzer):
     def set_input(self, input):
         """Set the input of the analyzer and split it into signal and noise
         again"""
+        # split first: an input that cannot be split is refused before anything
+        # of the analyzer is changed
+        signal, noise = signal_noise(input)
         BaseAnalyzer.set_input(self, input)
-        self.signal, self.noise = signal_noise(input)
+        self.signal, self.noise = signal, noise
 
     @desc.setattr_on_read
     def mt_frequencies(self):
